@@ -244,6 +244,16 @@ def clash_atoms():
             [0, sy('a WITH b WITH c')], [0, sy('a')], [0, sy('a', 1)], [1, sy('a', 1), sy('b')], [0, sy('c')], [0, sy('mit')]]
 
 
+def with_part_atoms():
+    """WITH pairs next to the bare symbols they are made of: an absorption or containment test that looks inside a
+    WITH pair confuses these (a WITH pair is an atom of its own)."""
+    from core import enc_str
+    def sy(k, e=0):
+        return [enc_str(k), e]
+    return [[0, sy('gpl')], [0, sy('cp')], [0, sy('mit')], [1, sy('gpl'), sy('cp')], [1, sy('cp'), sy('gpl')],
+            [1, sy('gpl'), sy('mit')], [1, sy('mit'), sy('cp')]]
+
+
 def gen_tree(rng, depth=3, maxar=4, keys=ATOM_KEYS, collide=False, atoms=None):
     """Random encoded expression tree; every AND/OR has two or more operands."""
     if depth <= 0 or rng.random() < 0.3:
